@@ -24,6 +24,7 @@ pub enum Fam {
     Pred,
     Choice,
     Parts,
+    Markers,
 }
 
 pub fn describe(f: Fam, thorough: bool) -> &'static str {
@@ -38,6 +39,8 @@ pub fn describe(f: Fam, thorough: bool) -> &'static str {
         (Fam::Pred, true) => "PRED: EBNF(2,1,2) with <=2, EBNF(3,1,2) with 1 inserted ?1/?t/!1/#1",
         (Fam::Choice, false) => "CHOICE: one ordered choice in EBNF(3,0,2) with <=1 inserted ~, and in two-rule EBNF(4,0,2)",
         (Fam::Choice, true) => "CHOICE: one ordered choice in EBNF(3,0,2) with <=2 inserted ~/&/!1, EBNF(4,0,2) with <=1",
+        (Fam::Markers, false) => "MARKERS: two marker/creation pairs in every placement (crossing included) in `x: A B C A`",
+        (Fam::Markers, true) => "MARKERS: two marker/creation pairs in every placement (crossing included) in `x: A B C A` and `x: A y C A`",
         (Fam::Parts, false) => "PARTS: EBNF(3,1,3) with every non-empty subset of non-start rules as parts",
         (Fam::Parts, true) => "PARTS: EBNF(4,1,3) with every non-empty subset of non-start rules as parts",
     }
@@ -87,6 +90,7 @@ pub fn family_of(f: Fam, thorough: bool) -> Vec<Grammar> {
             v.extend(choice_family(&ebnf_bound(4, 0, 2, false), 1));
             v
         }
+        (Fam::Markers, t) => markers_family(if t { &[0, 1] } else { &[0] }),
         (Fam::Parts, t) => parts_family(&ebnf_bound(if t { 4 } else { 3 }, 1, 3, false)),
     }
 }
@@ -99,6 +103,7 @@ pub fn families_for(prop: &str) -> Vec<Fam> {
         "C06" => vec![Ebnf, Pratt, Node, Parts],
         "C07" => vec![Pratt],
         "C08" => vec![Choice],
+        "C01" | "C02" | "C03" | "C11" => vec![Ebnf, Pratt, Node, Pred, Choice, Parts, Markers],
         _ => vec![Ebnf, Pratt, Node, Pred, Choice, Parts],
     }
 }
